@@ -9,16 +9,18 @@ Open Scope N_scope.
 (** generic search: [p multi e] is asked on every expression of the tree, [multi] telling
     whether the expression stands where several values are kept (last of an expression
     list) *)
+(** [f true x] on the last element, [f false x] on the others *)
+Definition last_aware {A} (f : bool -> A -> bool) : list A -> bool :=
+  fix go (l : list A) : bool :=
+    match l with
+    | [] => false
+    | [x] => f true x
+    | x :: r => f false x || go r
+    end.
+
 Section Search.
 Variable p : bool -> expr -> bool.
 Variable q : stmt -> bool.
-
-Fixpoint last_flags {A} (l : list A) : list (bool * A) :=
-  match l with
-  | [] => []
-  | [x] => [(true, x)]
-  | x :: r => (false, x) :: last_flags r
-  end.
 
 Fixpoint s_expr (multi : bool) (e : expr) : bool :=
   p multi e ||
@@ -31,7 +33,7 @@ Fixpoint s_expr (multi : bool) (e : expr) : bool :=
   | EIf bs els => existsb (fun b => match b with EBranch c r => s_expr false c || s_expr false r end) bs
                   || s_expr false els
   | EParen e' => s_expr false e'
-  | ETable entries => s_entries entries
+  | ETable entries => last_aware s_entry entries
   | EUnary _ e' => s_expr false e'
   | EBinary _ l r => s_expr false l || s_expr false r
   | ETypeCast e' _ => s_expr false e'
@@ -41,25 +43,16 @@ Fixpoint s_expr (multi : bool) (e : expr) : bool :=
 
 with s_args (a : args) : bool :=
   match a with
-  | ATuple es => (fix go (l : list expr) : bool :=
-                    match l with
-                    | [] => false
-                    | [x] => s_expr true x
-                    | x :: r => s_expr false x || go r
-                    end) es
+  | ATuple es => last_aware s_expr es
   | AString _ => false
-  | ATable entries => s_entries entries
+  | ATable entries => last_aware s_entry entries
   end
 
-with s_entries (l : list tentry) : bool :=
-  match l with
-  | [] => false
-  | [TValue v] => s_expr true v
-  | t :: r => (match t with
-               | TField _ v => s_expr false v
-               | TIndex k v => s_expr false k || s_expr false v
-               | TValue v => s_expr false v
-               end) || s_entries r
+with s_entry (is_last : bool) (t : tentry) : bool :=
+  match t with
+  | TField _ v => s_expr false v
+  | TIndex k v => s_expr false k || s_expr false v
+  | TValue v => s_expr is_last v
   end
 
 with s_fbody (f : fbody) : bool :=
@@ -67,22 +60,16 @@ with s_fbody (f : fbody) : bool :=
 
 with s_stmt (s : stmt) : bool :=
   q s ||
-  let elist := (fix go (l : list expr) : bool :=
-                  match l with
-                  | [] => false
-                  | [x] => s_expr true x
-                  | x :: r => s_expr false x || go r
-                  end) in
   match s with
-  | SAssign vars vals => existsb (s_expr false) vars || elist vals
+  | SAssign vars vals => existsb (s_expr false) vars || last_aware s_expr vals
   | SDo b => s_block b
   | SCall c => s_expr false c
   | SCompound _ var v => s_expr false var || s_expr false v
   | SFunction _ _ _ f => s_fbody f
-  | SGenericFor _ es b => elist es || s_block b
+  | SGenericFor _ es b => last_aware s_expr es || s_block b
   | SIf bs els => existsb (fun b => match b with SBranch c body => s_expr false c || s_block body end) bs
                   || match els with Some b => s_block b | None => false end
-  | SLocal _ _ vals => elist vals
+  | SLocal _ _ vals => last_aware s_expr vals
   | SLocalFunction _ f => s_fbody f
   | SNumericFor _ a b step body =>
     s_expr false a || s_expr false b || match step with Some e => s_expr false e | None => false end || s_block body
@@ -97,12 +84,7 @@ with s_block (b : block) : bool :=
   | Block stmts last =>
     existsb s_stmt stmts ||
     match last with
-    | Some (LReturn es) => (fix go (l : list expr) : bool :=
-                              match l with
-                              | [] => false
-                              | [x] => s_expr true x
-                              | x :: r => s_expr false x || go r
-                              end) es
+    | Some (LReturn es) => last_aware s_expr es
     | _ => false
     end
   end.
